@@ -105,7 +105,12 @@ def run(rep: core.Report):
     if not gs:
         raise AnalysisError("GruneisenBase._set_gruneisen: assignment of self._gruneisen vanished")
     e = symalg.open_expr(core.src(gs[0].value))
-    want = symalg.open_expr("-edDe / self._delta_strain / self._eigenvalues / 2")
+    # the local holding <e|dD|e>: the array built from the list that receives the second result of rotate_eigenvectors
+    ename = "edDe"
+    locals_in_value = sorted({x.id for x in ast.walk(gs[0].value) if isinstance(x, ast.Name)} - {"np"})
+    if len(locals_in_value) == 1:
+        ename = locals_in_value[0]
+    want = symalg.open_expr(f"-{ename} / self._delta_strain / self._eigenvalues / 2")
     rep.instance("R12b", GR, "GruneisenBase._set_gruneisen", core.src(gs[0]), symalg.same(e, want)[0], "gamma is not -<e|dD|e> / (dV/V) / (2 omega^2)", line=gs[0].lineno,
                  sample={"formula": str(e)})
     init = core.find_def(GR, "GruneisenBase.__init__")
@@ -119,8 +124,17 @@ def run(rep: core.Report):
         okds = bool(sp.simplify(v - symalg.open_expr("(dynmat_plus.primitive.volume - dynmat_minus.primitive.volume) / dynmat.primitive.volume")) == 0)
     rep.instance("R12b", GR, "GruneisenBase.__init__", f"delta_strain = {core.norm(str(ds[-1]), 90) if ds else '?'}", okds, "the strain is not (V+ - V-)/V of the three supplied cells", line=init.lineno)
     dd = core.find_def(GR, "GruneisenBase._get_dD")
-    rets = [core.src(r.value) for r in ast.walk(dd) if isinstance(r, ast.Return)]
-    rep.instance("R12b", GR, "GruneisenBase._get_dD", f"return {rets}", rets == ["dm_b - dm_a"], "dD is not D(b) - D(a)", line=dd.lineno)
+    # by role: the returned difference is (matrix of the third parameter) - (matrix of the second parameter)
+    pa, pb = dd.args.args[2].arg, dd.args.args[3].arg
+    ldefs = {core.src(st.targets[0]): core.src(st.value) for st in ast.walk(dd) if isinstance(st, ast.Assign) and isinstance(st.targets[0], ast.Name)}
+    rets = [r.value for r in ast.walk(dd) if isinstance(r, ast.Return) and r.value is not None]
+    ok_dd = False
+    shown = [core.src(r) for r in rets]
+    if len(rets) == 1 and isinstance(rets[0], ast.BinOp) and isinstance(rets[0].op, ast.Sub):
+        l_, r_ = (ldefs.get(core.src(x), core.src(x)) for x in (rets[0].left, rets[0].right))
+        ok_dd = l_ == f"{pb}.dynamical_matrix" and r_ == f"{pa}.dynamical_matrix"
+        shown = [f"{l_} - {r_}"]
+    rep.instance("R12b", GR, "GruneisenBase._get_dD", f"return {shown}", ok_dd, "dD is not D(second object) - D(first object)", line=dd.lineno)
     call = [c for c in ast.walk(gfn) if isinstance(c, ast.Call) and core.src(c.func) == "self._get_dD"]
     okc = bool(call) and [core.src(a) for a in call[0].args] == ["q", "self._dynmat_minus", "self._dynmat_plus"]
     rep.instance("R12b", GR, "GruneisenBase._set_gruneisen", core.src(call[0]) if call else "<vanished>", okc, "dD is not taken as D(V+) - D(V-) (arguments minus, plus in that order)", line=gfn.lineno)
